@@ -134,7 +134,14 @@ impl CatLens {
     fn run_race(&self, idx: usize, run: &mut Run, out: &mut TraceWriter) -> Result<(), String> {
         use std::sync::atomic::{AtomicBool, Ordering};
         let pair = run.scn.steps[0]["pair"].as_str().unwrap_or("topic").to_string();
-        let (create_code, purge_code) = if pair == "stream" { (202u64, 205u64) } else { (302u64, 305u64) };
+        // (held back, the command that may overtake it): create/purge (the purge depends on the creation) and delete/re-create
+        // (the re-creation must not be journalled before the deletion)
+        let (create_code, purge_code) = match pair.as_str() {
+            "stream" => (202u64, 205u64),
+            "delete_create_topic" => (303u64, 302u64),
+            "delete_create_stream" => (203u64, 202u64),
+            _ => (302u64, 305u64),
+        };
         self.start_inc(run)?;
         out.emit(&json!({"ev":"reset","sc":idx,"id":run.scn.id,"kind":"race"}));
         let inc = run.inc.as_ref().unwrap();
@@ -144,6 +151,9 @@ impl CatLens {
         let t1 = Identifier::numeric(1).unwrap();
         if pair != "stream" {
             inc.rt.block_on(a.create_stream("race-stream", Some(1))).map_err(|e| e.to_string())?;
+        }
+        if pair == "delete_create_topic" {
+            inc.rt.block_on(a.create_topic(&s1, "race-topic", 3, CompressionAlgorithm::None, None, Some(1), IggyExpiry::NeverExpire, MaxTopicSize::Unlimited)).map_err(|e| e.to_string())?;
         }
         let purge_entered = Arc::new(AtomicBool::new(false));
         let purge_done = Arc::new(AtomicBool::new(false));
@@ -172,18 +182,25 @@ impl CatLens {
         }
         let (ra, rb) = inc.rt.block_on(async {
             let fa = async {
-                if pair == "stream" {
-                    res_of(&a.create_stream("race-stream", Some(1)).await)
-                } else {
-                    res_of(&a.create_topic(&s1, "race-topic", 1, CompressionAlgorithm::None, None, Some(1), IggyExpiry::NeverExpire, MaxTopicSize::Unlimited).await)
+                match pair.as_str() {
+                    "stream" => res_of(&a.create_stream("race-stream", Some(1)).await),
+                    "delete_create_topic" => res_of(&a.delete_topic(&s1, &t1).await),
+                    "delete_create_stream" => res_of(&a.delete_stream(&s1).await),
+                    _ => res_of(&a.create_topic(&s1, "race-topic", 1, CompressionAlgorithm::None, None, Some(1), IggyExpiry::NeverExpire, MaxTopicSize::Unlimited).await),
                 }
             };
             let fb = async {
                 let mut last = String::new();
+                // B starts a moment later (A's command is then in progress) and retries until its command is accepted
+                tokio::time::sleep(std::time::Duration::from_micros(300)).await;
                 for _ in 0..3000 {
-                    let r = if pair == "stream" { b.purge_stream(&s1).await } else { b.purge_topic(&s1, &t1).await };
-                    last = res_of(&r);
-                    if r.is_ok() {
+                    let ok = match pair.as_str() {
+                        "stream" => { let r = b.purge_stream(&s1).await; last = res_of(&r); r.is_ok() }
+                        "delete_create_topic" => { let r = b.create_topic(&s1, "race-topic-2", 1, CompressionAlgorithm::None, None, Some(1), IggyExpiry::NeverExpire, MaxTopicSize::Unlimited).await; last = res_of(&r); r.is_ok() }
+                        "delete_create_stream" => { let r = b.create_stream("race-stream-2", Some(1)).await; last = res_of(&r); r.is_ok() }
+                        _ => { let r = b.purge_topic(&s1, &t1).await; last = res_of(&r); r.is_ok() }
+                    };
+                    if ok {
                         break;
                     }
                     tokio::time::sleep(std::time::Duration::from_micros(500)).await;
